@@ -253,6 +253,12 @@ def instances(tier, seed):
     for ex, m in (('mproof_ord_pruned', 1), ('mproof_ord_pruned', 3), ('ord_over_two_pruned', 3), ('ord_over_two_pruned', 5), ('mupd', 1), ('ord_over_library', 1)):
         yield 'h_accept', dict(exotic=ex, m=m)
         yield 'h_accept', dict(exotic=ex, m=m, hashes='all', has_crc=True)
+    # the largest serialised cells: 1023 bits, 4 references, level mask 7/5/1, with and without stored hashes, every size
+    for m in (7, 5, 1):
+        for size in (None, 2, 4) if tier == 'quick' else (None, 2, 3, 4):
+            yield 'h_accept', dict(exotic='max_over_pruned', m=m, hashes='all', has_crc=(m == 7), size=size)
+            yield 'h_accept', dict(exotic='max_over_pruned', m=m, hashes=[0], has_idx=True, size=size)
+        yield 'h_accept', dict(exotic='max_over_pruned', m=m, size=4)
     # legacy magics
     for name in SHAPES:
         for magic in ('idx', 'idx_crc'):
@@ -288,7 +294,7 @@ INSTANCE_TIMEOUT = {'quick': 200, 'thorough': 900}
 BOUNDS = {
     'DAGs': ', '.join(f'{k}{v}' for k, v in SHAPES.items()) + '; exotic trees from C02; all contents symbolic',
     'freedoms': 'size 1..4, off_bytes min/2/8, index, cache bits, CRC (quick: a seeded fifth of the 360 combinations); other topological orders; '
-                '1..3 roots incl. a root that is not cell 0; stored hashes on the first/last/all cells and on exotic cells with masks 1,3,5; both legacy magics',
+                '1..3 roots incl. a root that is not cell 0; the largest serialised cell (1023 bits, 4 references, level mask 7, stored hashes, size 1..4); stored hashes on the first/last/all cells and on exotic cells with masks 1,3,5; both legacy magics',
     'rejection': 'every truncation length; extension by 1, 2, 4 symbolic bytes; every single-bit flip position of CRC-protected input; '
                  'every reference replaced by any backward/self or dangling index',
 }
